@@ -1,5 +1,397 @@
 import Yuiv.Model.C12Rings
 import Mathlib.Tactic.Ring
 import Mathlib.Tactic.Linarith
+import Mathlib.Algebra.BigOperators.Group.Finset.Basic
+import Mathlib.Algebra.BigOperators.Ring.Finset
+
 namespace Yuiv.C12
+open Yuiv
+set_option linter.unusedSectionVars false
+set_option linter.unusedSimpArgs false
+
+class LawfulScal (R : Type) [CommRing R] [Scal R] : Prop where
+  zero_eq : (Scal.zero : R) = 0
+  one_eq : (Scal.one : R) = 1
+  add_eq : ∀ a b : R, Scal.add a b = a + b
+  sub_eq : ∀ a b : R, Scal.sub a b = a - b
+  mul_eq : ∀ a b : R, Scal.mul a b = a * b
+  neg_eq : ∀ a : R, Scal.neg a = -a
+  isZero_iff : ∀ a : R, Scal.isZero a = true ↔ a = 0
+  inv_mul : ∀ a b : R, Scal.inv a = some b → a * b = 1
+
+section
+variable {R : Type} [CommRing R] [Scal R] [LawfulScal R]
+open LawfulScal
+
+theorem isZero_false_iff (a : R) : isZero a = false ↔ a ≠ 0 := by
+  constructor
+  · intro h h0; rw [(isZero_iff a).2 h0] at h; cases h
+  · intro h; cases hz : isZero a
+    · rfl
+    · exact absurd ((isZero_iff a).1 hz) h
+
+theorem lsum_eq (l : List R) : lsum l = l.sum := by
+  induction l with
+  | nil => simp [lsum, zero_eq]
+  | cons a l ih => simp [lsum, add_eq, ih]
+
+theorem colSum_nil (k : Nat) : colSum ([] : List (Nat × R)) k = 0 := by
+  simp [colSum, lsum, zero_eq]
+
+theorem colSum_cons (e : Nat × R) (l : List (Nat × R)) (k : Nat) :
+    colSum (e :: l) k = (if e.1 = k then e.2 else 0) + colSum l k := by
+  unfold colSum
+  by_cases h : e.1 = k
+  · simp [h, lsum, add_eq]
+  · have : (e.1 == k) = false := by simpa using h
+    simp [this, h]
+
+theorem colSum_append (l₁ l₂ : List (Nat × R)) (k : Nat) :
+    colSum (l₁ ++ l₂) k = colSum l₁ k + colSum l₂ k := by
+  induction l₁ with
+  | nil => simp [colSum_nil]
+  | cons e l ih => simp [colSum_cons, ih, add_assoc]
+
+theorem colSum_reverse (l : List (Nat × R)) (k : Nat) : colSum l.reverse k = colSum l k := by
+  induction l with
+  | nil => rfl
+  | cons e l ih => simp [colSum_append, colSum_cons, colSum_nil, ih, add_comm]
+
+theorem colSum_filter_nz (l : List (Nat × R)) (k : Nat) :
+    colSum (l.filter fun e => !isZero e.2) k = colSum l k := by
+  induction l with
+  | nil => rfl
+  | cons e l ih =>
+    by_cases hz : isZero e.2 = true
+    · have h0 : e.2 = 0 := (isZero_iff _).1 hz
+      rw [List.filter_cons_of_neg (by simp [hz]), ih, colSum_cons, h0]; simp
+    · rw [List.filter_cons_of_pos (by simpa using hz), colSum_cons, colSum_cons, ih]
+
+theorem bget_bset (b : Array R) (i k : Nat) (v : R) :
+    bget (bset b i v) k = if i = k ∧ i < b.size then v else bget b k := by
+  unfold bget bset
+  by_cases h : i = k
+  · subst h
+    by_cases hi : i < b.size
+    · simp [hi, Array.getD_eq_getD_getElem?]
+    · simp [hi, Array.getD_eq_getD_getElem?]
+  · simp [h, Array.getD_eq_getD_getElem?, Array.getElem?_setIfInBounds_ne h]
+
+theorem size_bset (b : Array R) (i : Nat) (v : R) : (bset b i v).size = b.size := by
+  simp [bset]
+
+
+/-! ### the inner loop -/
+
+theorem size_colStep (x : R) (b : Array R) (c : List (Nat × R)) : (colStep x b c).size = b.size := by
+  induction c generalizing b with
+  | nil => rfl
+  | cons e c ih =>
+    unfold colStep
+    split
+    · exact ih b
+    · rw [ih, size_bset]
+
+theorem bget_colStep (x : R) (b : Array R) (c : List (Nat × R)) (hc : ∀ e ∈ c, e.1 < b.size) (k : Nat) :
+    bget (colStep x b c) k = bget b k - colSum c k * x := by
+  induction c generalizing b with
+  | nil => simp [colStep, colSum_nil]
+  | cons e c ih =>
+    have he : e.1 < b.size := hc e (by simp)
+    unfold colStep
+    by_cases hz : isZero e.2 = true
+    · have h0 : e.2 = 0 := (isZero_iff _).1 hz
+      rw [if_pos hz, ih b (fun e' h' => hc e' (by simp [h'])), colSum_cons, h0]; simp
+    · rw [if_neg hz, ih _ (fun e' h' => by rw [size_bset]; exact hc e' (by simp [h'])), bget_bset, colSum_cons]
+      by_cases hk : e.1 = k
+      · subst hk; simp [he, sub_eq, mul_eq]; ring
+      · simp [hk]
+
+/-! ### the outer loop: `A·x_partial + b` is invariant -/
+
+/-- rows of stored entries are in range and the column array has the right size -/
+structure WF (A : SpMat R) : Prop where
+  size : A.cols.size = A.ncols
+  rows : ∀ j, ∀ e ∈ col A j, e.1 < A.nrows
+
+theorem colVec_rows {A : SpMat R} (h : WF A) (j : Nat) : ∀ e ∈ colVec A j, e.1 < A.nrows := by
+  intro e he
+  exact h.rows j e (List.mem_of_mem_filter he)
+
+theorem entry_colVec (A : SpMat R) (i j : Nat) : colSum (colVec A j) i = entry A i j := by
+  unfold colVec entry; exact colSum_filter_nz _ _
+
+/-- `(A·x)_i` for the partial solution stored in `es` -/
+def axAt (A : SpMat R) (n : Nat) (es : List (Nat × R)) (i : Nat) : R :=
+  ∑ j ∈ Finset.range n, entry A i j * colSum es j
+
+theorem axAt_push (A : SpMat R) (n : Nat) (es : List (Nat × R)) (j : Nat) (x : R) (hj : j < n) (i : Nat) :
+    axAt A n (es ++ [(j, x)]) i = axAt A n es i + entry A i j * x := by
+  unfold axAt
+  have : ∀ j' ∈ Finset.range n, entry A i j' * colSum (es ++ [(j, x)]) j' =
+      entry A i j' * colSum es j' + (if j = j' then entry A i j' * x else 0) := by
+    intro j' _
+    rw [colSum_append, colSum_cons, colSum_nil]
+    by_cases h : j = j' <;> simp [h, mul_add]
+  rw [Finset.sum_congr rfl this, Finset.sum_add_distrib, Finset.sum_ite_eq]
+  simp [hj]
+
+theorem outer_invariant (A : SpMat R) (hA : WF A) (n : Nat) (hn : A.nrows = n)
+    (js : List (Nat × R)) (hjs : ∀ ju ∈ js, ju.1 < n) (b : Array R) (hb : b.size = n)
+    (es : List (Nat × R)) (b' : Array R) (es' : List (Nat × R))
+    (h : outer A b es js = .ok (b', es')) :
+    b'.size = n ∧ ∀ i, axAt A n es' i + bget b' i = axAt A n es i + bget b i := by
+  induction js generalizing b es with
+  | nil =>
+    simp only [outer, Res.ok.injEq, Prod.mk.injEq] at h
+    obtain ⟨rfl, rfl⟩ := h
+    exact ⟨hb, fun _ => rfl⟩
+  | cons ju js ih =>
+    have hj : ju.1 < n := hjs ju (by simp)
+    have hjs' : ∀ ju' ∈ js, ju'.1 < n := fun ju' h' => hjs ju' (by simp [h'])
+    unfold outer at h
+    rw [if_neg (by omega)] at h
+    by_cases hz : isZero (bget b ju.1) = true
+    · rw [if_pos hz] at h
+      exact ih hjs' b hb es h
+    · rw [if_neg hz] at h
+      cases hi : inv ju.2 with
+      | none => rw [hi] at h; cases h
+      | some ui =>
+        rw [hi] at h
+        simp only at h
+        obtain ⟨hs, hinv⟩ := ih hjs' _ (by rw [size_colStep, hb]) _ h
+        refine ⟨hs, fun i => ?_⟩
+        rw [hinv i, axAt_push A n es ju.1 _ hj, bget_colStep _ _ _ (fun e he => by rw [hb, ← hn]; exact colVec_rows hA _ e he),
+          entry_colVec]
+        ring
+
+
+theorem outer_index (A : SpMat R) (n : Nat) (js : List (Nat × R)) (hjs : ∀ ju ∈ js, ju.1 < n)
+    (b : Array R) (es : List (Nat × R)) (hes : ∀ e ∈ es, e.1 < n) (b' : Array R) (es' : List (Nat × R))
+    (h : outer A b es js = .ok (b', es')) : ∀ e ∈ es', e.1 < n := by
+  induction js generalizing b es with
+  | nil =>
+    simp only [outer, Res.ok.injEq, Prod.mk.injEq] at h
+    obtain ⟨-, rfl⟩ := h; exact hes
+  | cons ju js ih =>
+    have hj : ju.1 < n := hjs ju (by simp)
+    have hjs' : ∀ ju' ∈ js, ju'.1 < n := fun ju' h' => hjs ju' (by simp [h'])
+    unfold outer at h
+    split at h
+    · cases h
+    · split at h
+      · exact ih hjs' b es hes h
+      · split at h
+        · cases h
+        · refine ih hjs' _ _ ?_ h
+          intro e he
+          rcases List.mem_append.1 he with he | he
+          · exact hes e he
+          · simp at he; subst he; exact hj
+
+/-! ### triangular matrices with unit diagonal: the buffer returns to zero -/
+
+/-- `A` is an `n×n` triangular matrix: every stored NON-ZERO entry is on the right side (stored zeros may be
+anywhere), every column stores exactly one diagonal entry `u j`, and `u j` is a unit (`inv` finds `v j`). -/
+structure UnitTriang (upper : Bool) (A : SpMat R) (n : Nat) (u v : Nat → R) : Prop where
+  wf : WF A
+  nrows : A.nrows = n
+  ncols : A.ncols = n
+  tri : ∀ j < n, ∀ e ∈ col A j, isZero e.2 = false → (if upper then e.1 ≤ j else j ≤ e.1)
+  diag : ∀ j < n, (col A j).filter (fun e => e.1 == j) = [(j, u j)]
+  unit : ∀ j < n, inv (u j) = some (v j)
+
+theorem colSum_eq_zero (l : List (Nat × R)) (k : Nat) (h : ∀ e ∈ l, e.1 = k → e.2 = 0) : colSum l k = 0 := by
+  induction l with
+  | nil => exact colSum_nil k
+  | cons e l ih =>
+    rw [colSum_cons, ih (fun e' h' => h e' (by simp [h']))]
+    by_cases hk : e.1 = k
+    · simp [hk, h e (by simp) hk]
+    · simp [hk]
+
+variable {upper : Bool} {A : SpMat R} {n : Nat} {u v : Nat → R}
+
+theorem UnitTriang.entry_diag (hA : UnitTriang upper A n u v) (j : Nat) (hj : j < n) : entry A j j = u j := by
+  unfold entry colSum
+  rw [hA.diag j hj]; simp [lsum, add_eq, zero_eq]
+
+theorem UnitTriang.entry_upper (hA : UnitTriang true A n u v) (k j : Nat) (hj : j < n) (hk : j < k) : entry A k j = 0 := by
+  apply colSum_eq_zero
+  intro e he hek
+  by_contra hne
+  have := hA.tri j hj e he ((isZero_false_iff _).2 hne)
+  simp at this; omega
+
+theorem UnitTriang.entry_lower (hA : UnitTriang false A n u v) (k j : Nat) (hj : j < n) (hk : k < j) : entry A k j = 0 := by
+  apply colSum_eq_zero
+  intro e he hek
+  by_contra hne
+  have := hA.tri j hj e he ((isZero_false_iff _).2 hne)
+  simp at this; omega
+
+theorem UnitTriang.unit_mul (hA : UnitTriang upper A n u v) (j : Nat) (hj : j < n) : u j * v j = 1 :=
+  inv_mul _ _ (hA.unit j hj)
+
+theorem outer_upper (hA : UnitTriang true A n u v) (m : Nat) (hm : m ≤ n) (b : Array R) (hb : b.size = n)
+    (es : List (Nat × R)) (hz : ∀ k, m ≤ k → k < n → bget b k = 0) :
+    ∃ b' es', outer A b es (((List.range m).reverse).map (fun j => (j, u j))) = .ok (b', es') ∧
+      ∀ k, k < n → bget b' k = 0 := by
+  induction m generalizing b es with
+  | zero => exact ⟨b, es, by simp [outer], fun k hk => hz k (Nat.zero_le _) hk⟩
+  | succ m ih =>
+    have hmn : m < n := hm
+    rw [List.range_succ, List.reverse_append, List.reverse_singleton, List.singleton_append, List.map_cons]
+    unfold outer
+    rw [if_neg (by simp only []; omega)]
+    by_cases hzm : isZero (bget b m) = true
+    · rw [if_pos hzm]
+      refine ih (by omega) b hb es (fun k hk hkn => ?_)
+      rcases Nat.eq_or_lt_of_le hk with rfl | hlt
+      · exact (isZero_iff _).1 hzm
+      · exact hz k hlt hkn
+    · rw [if_neg hzm]
+      simp only [hA.unit m hmn]
+      refine ih (by omega) _ (by rw [size_colStep, hb]) _ (fun k hk hkn => ?_)
+      rw [bget_colStep _ _ _ (fun e he => by rw [hb, ← hA.nrows]; exact colVec_rows hA.wf _ e he), entry_colVec, mul_eq]
+      rcases Nat.eq_or_lt_of_le hk with rfl | hlt
+      · rw [hA.entry_diag m hmn]
+        have := hA.unit_mul m hmn
+        calc bget b m - u m * (bget b m * v m) = bget b m - bget b m * (u m * v m) := by ring
+          _ = 0 := by rw [this]; ring
+      · rw [hz k hlt hkn, hA.entry_upper k m hmn hlt]; ring
+
+theorem outer_lower (hA : UnitTriang false A n u v) (d m : Nat) (hm : m + d = n) (b : Array R) (hb : b.size = n)
+    (es : List (Nat × R)) (hz : ∀ k, k < m → bget b k = 0) :
+    ∃ b' es', outer A b es ((List.range' m d).map (fun j => (j, u j))) = .ok (b', es') ∧
+      ∀ k, k < n → bget b' k = 0 := by
+  induction d generalizing m b es with
+  | zero => exact ⟨b, es, by simp [outer], fun k hk => hz k (by omega)⟩
+  | succ d ih =>
+    have hmn : m < n := by omega
+    rw [List.range'_succ, List.map_cons]
+    unfold outer
+    rw [if_neg (by simp only []; omega)]
+    by_cases hzm : isZero (bget b m) = true
+    · rw [if_pos hzm]
+      refine ih (m + 1) (by omega) b hb es (fun k hk => ?_)
+      rcases Nat.eq_or_lt_of_le (Nat.le_of_lt_succ hk) with rfl | hlt
+      · exact (isZero_iff _).1 hzm
+      · exact hz k hlt
+    · rw [if_neg hzm]
+      simp only [hA.unit m hmn]
+      refine ih (m + 1) (by omega) _ (by rw [size_colStep, hb]) _ (fun k hk => ?_)
+      rw [bget_colStep _ _ _ (fun e he => by rw [hb, ← hA.nrows]; exact colVec_rows hA.wf _ e he), entry_colVec, mul_eq]
+      rcases Nat.eq_or_lt_of_le (Nat.le_of_lt_succ hk) with rfl | hlt
+      · rw [hA.entry_diag k hmn]
+        have := hA.unit_mul k hmn
+        calc bget b k - u k * (bget b k * v k) = bget b k - bget b k * (u k * v k) := by ring
+          _ = 0 := by rw [this]; ring
+      · rw [hz k hlt, hA.entry_lower k m hmn hlt]; ring
+
+
+/-! ### `_solve_triangular` -/
+
+theorem filterMap_diag (l : List (Nat × R)) (j : Nat) :
+    l.filterMap (fun e => if e.1 == j then some e.2 else none) = (l.filter (fun e => e.1 == j)).map (·.2) := by
+  induction l with
+  | nil => rfl
+  | cons e l ih =>
+    by_cases h : e.1 = j <;> simp_all [List.filterMap_cons, List.filter_cons]
+
+theorem flatMap_singleton {β γ : Type} (f : β → List γ) (g : β → γ) (l : List β) (h : ∀ x ∈ l, f x = [g x]) :
+    l.flatMap f = l.map g := by
+  induction l with
+  | nil => rfl
+  | cons x l ih =>
+    rw [List.flatMap_cons, h x (by simp), ih (fun y hy => h y (by simp [hy]))]; rfl
+
+theorem UnitTriang.collectDiag_eq (hA : UnitTriang upper A n u v) : collectDiag A = (List.range n).map u := by
+  unfold collectDiag
+  rw [hA.ncols]
+  apply flatMap_singleton
+  intro j hj
+  rw [filterMap_diag, hA.diag j (List.mem_range.1 hj)]; rfl
+
+theorem enumFrom_range' (u : Nat → R) (k m : Nat) :
+    enumFrom k ((List.range' k m).map u) = (List.range' k m).map (fun j => (j, u j)) := by
+  induction m generalizing k with
+  | zero => rfl
+  | succ m ih => rw [List.range'_succ, List.map_cons, List.map_cons, enumFrom, ih]
+
+theorem bget_eq_getElem (b : Array R) (i : Nat) (h : i < b.size) : bget b i = b[i] := by
+  simp [bget, Array.getD_eq_getD_getElem?, h]
+
+theorem bget_zeroBuf (n i : Nat) : bget (zeroBuf n : Array R) i = 0 := by
+  unfold bget zeroBuf
+  by_cases h : i < n
+  · simp [Array.getD_eq_getD_getElem?, h, zero_eq]
+  · simp [Array.getD_eq_getD_getElem?, h, zero_eq]
+
+theorem eq_zeroBuf (b : Array R) (n : Nat) (hb : b.size = n) (h : ∀ k, k < n → bget b k = 0) : b = zeroBuf n := by
+  apply Array.ext
+  · simp [zeroBuf, hb]
+  · intro i h1 h2
+    rw [← bget_eq_getElem b i h1, h i (by omega)]
+    simp [zeroBuf, zero_eq]
+
+theorem axAt_nil (A : SpMat R) (n i : Nat) : axAt A n [] i = 0 := by
+  simp [axAt, colSum_nil]
+
+theorem axAt_reverse (A : SpMat R) (n : Nat) (es : List (Nat × R)) (i : Nat) : axAt A n es.reverse i = axAt A n es i := by
+  simp [axAt, colSum_reverse]
+
+/-- **`_solve_triangular` on a unit-triangular matrix**: no panic, the scratch buffer is all-zero at exit, the
+returned entries have indices `< n` and satisfy `A·x = b` (for ANY content `b` of the buffer at entry). -/
+theorem solveBuf_spec (hA : UnitTriang upper A n u v) (b : Array R) (hb : b.size = n) :
+    ∃ es, solveBuf upper A (collectDiag A) b = .ok (zeroBuf n, es) ∧ (∀ e ∈ es, e.1 < n) ∧
+      ∀ i, axAt A n es i = bget b i := by
+  have hen : enumFrom 0 (collectDiag A) = (List.range n).map (fun j => (j, u j)) := by
+    rw [hA.collectDiag_eq, List.range_eq_range', enumFrom_range']
+  have hjs : ∀ ju ∈ (if upper then ((List.range n).map (fun j => (j, u j))).reverse else (List.range n).map (fun j => (j, u j))), ju.1 < n := by
+    intro ju h
+    have h' : ju ∈ (List.range n).map (fun j => (j, u j)) := by
+      cases upper
+      · simpa using h
+      · simpa using h
+    obtain ⟨j, hj, rfl⟩ := List.mem_map.1 h'; exact List.mem_range.1 hj
+  have hout : ∃ b' es', outer A b [] (if upper then ((List.range n).map (fun j => (j, u j))).reverse
+      else (List.range n).map (fun j => (j, u j))) = .ok (b', es') ∧ ∀ k, k < n → bget b' k = 0 := by
+    cases upper with
+    | true =>
+      obtain ⟨b', es', ho, hz⟩ := outer_upper hA n (Nat.le_refl n) b hb [] (fun k h1 h2 => by omega)
+      exact ⟨b', es', by simpa [List.map_reverse] using ho, hz⟩
+    | false =>
+      obtain ⟨b', es', ho, hz⟩ := outer_lower hA n 0 (by omega) b hb [] (fun k h => by omega)
+      exact ⟨b', es', by simpa [List.range_eq_range'] using ho, hz⟩
+  obtain ⟨b', es', ho, hz⟩ := hout
+  obtain ⟨hs, hinv⟩ := outer_invariant A hA.wf n hA.nrows _ hjs b hb [] b' es' ho
+  have hidx := outer_index A n _ hjs b [] (by simp) b' es' ho
+  have hb' : b' = zeroBuf n := eq_zeroBuf b' n hs hz
+  have hall : b'.all isZero = true := by
+    rw [Array.all_eq_true]; intro i hi
+    rw [← bget_eq_getElem b' i hi, hz i (by omega)]; exact (isZero_iff _).2 rfl
+  have hidx' : ∀ e ∈ (if upper then es'.reverse else es'), e.1 < n := by
+    intro e he
+    cases upper
+    · exact hidx e (by simpa using he)
+    · exact hidx e (by simpa using he)
+  have hall2 : ((if upper then es'.reverse else es').all fun e => decide (e.1 < A.ncols)) = true := by
+    rw [List.all_eq_true]; intro e he; rw [hA.ncols]; simpa using hidx' e he
+  refine ⟨if upper then es'.reverse else es', ?_, hidx', fun i => ?_⟩
+  · unfold solveBuf
+    rw [hen]
+    simp only []
+    rw [ho]
+    subst hb'
+    simp only [hall, hall2, Bool.not_true, Bool.false_eq_true, if_false]
+  · have h1 := hinv i
+    rw [axAt_nil, zero_add, hb', bget_zeroBuf, add_zero] at h1
+    rw [← h1]
+    cases upper
+    · rfl
+    · exact axAt_reverse A n es' i
+
+end
 end Yuiv.C12
